@@ -150,7 +150,7 @@ def run_shard(path):
     if not m1 or not m2:
         return {"error": "cannot parse coqc output: " + out[-1000:], "mism": [], "bad": []}
     mism = [int(x) for x in re.findall(r"\d+", m1.group(1))]
-    pairs = re.findall(r"\((\d+)(?:%N)?,\s*(\d+)(?:%N)?\)", m2.group(1))
+    pairs = re.findall(r"\(\s*(\d+)(?:%N)?\s*,\s*(\d+)(?:%N)?\s*\)", m2.group(1))  # coqc may break a line after "("
     bad = [(int(a), int(b)) for a, b in pairs]
     return {"mism": mism, "bad": bad}
 
